@@ -23,7 +23,8 @@ import (
 
 // ---- string table (0 = "")
 
-var c16Strs = map[string]uint64{"": 0}
+// "sym:||" (metadata present, all fields empty) has the fixed id 1: Model/MergeDocs.v empty_meta
+var c16Strs = map[string]uint64{"": 0, "sym:||": 1}
 
 func c16S(s string) uint64 {
 	if v, ok := c16Strs[s]; ok {
@@ -45,8 +46,10 @@ func c16Ns(xs []string) string {
 // ---- generator
 
 type c16RepoSpec struct {
-	repo zoekt.Repository
-	docs []Document
+	repo   zoekt.Repository
+	docs   []Document
+	wide   bool // 33..64 branches
+	noMeta bool // symbol sections without symbol metadata
 }
 
 var c16Words = []string{"foo", "bar", "baz", "main", "helper", "zoekt", "x1", "alpha"}
@@ -55,11 +58,26 @@ func c16GenRepo(r *vfRand, id int, prio int) c16RepoSpec {
 	name := fmt.Sprintf("r%d", id)
 	allBr := []string{"main", "dev", "release", "HEAD"}
 	nb := 1 + r.Intn(3)
+	wide := r.Chance(25)
+	if wide {
+		// a repository may have up to 64 branches (setRepository); the branch mask is a uint64
+		nb = 33 + r.Intn(32)
+		if r.Chance(30) {
+			nb = 64
+		}
+	}
 	off := r.Intn(len(allBr))
 	var brs []zoekt.RepositoryBranch
 	for i := 0; i < nb; i++ {
-		brs = append(brs, zoekt.RepositoryBranch{Name: allBr[(off+i)%len(allBr)], Version: fmt.Sprintf("v%d%d", id, i)})
+		bn := allBr[(off+i)%len(allBr)]
+		if i >= len(allBr) {
+			bn = fmt.Sprintf("w%d", i)
+		}
+		brs = append(brs, zoekt.RepositoryBranch{Name: bn, Version: fmt.Sprintf("v%d.%d", id, i)})
 	}
+	// a shard built from documents that carry symbol sections but no symbol metadata (Document.Symbols set,
+	// SymbolsMetaData nil): symbolData.data returns nil for them
+	noMeta := r.Chance(20)
 	repo := zoekt.Repository{Name: name, ID: uint32(id), Branches: brs, RawConfig: map[string]string{"priority": strconv.Itoa(prio)}}
 	subs := []string{}
 	if r.Chance(40) {
@@ -71,7 +89,7 @@ func c16GenRepo(r *vfRand, id int, prio int) c16RepoSpec {
 			}
 		}
 	}
-	spec := c16RepoSpec{repo: repo}
+	spec := c16RepoSpec{repo: repo, wide: wide, noMeta: noMeta}
 	nd := 1 + r.Intn(4)
 	exts := []string{".go", ".py", ".txt", ".c", ""}
 	for j := 0; j < nd; j++ {
@@ -94,9 +112,27 @@ func c16GenRepo(r *vfRand, id int, prio int) c16RepoSpec {
 			doc.Name = doc.SubRepositoryPath + "/" + fname
 		}
 		// non-empty subset of the repo's branches
+		pb := 60
+		if wide {
+			pb = 8
+		}
 		for _, b := range brs {
-			if r.Chance(60) {
+			if r.Chance(pb) {
 				doc.Branches = append(doc.Branches, b.Name)
+			}
+		}
+		if wide && r.Chance(70) {
+			// a document on one of the branches 33..64 (possibly only there)
+			hb := brs[32+r.Intn(nb-32)].Name
+			if r.Chance(40) {
+				doc.Branches = nil
+			}
+			seen := false
+			for _, b := range doc.Branches {
+				seen = seen || b == hb
+			}
+			if !seen {
+				doc.Branches = append(doc.Branches, hb)
 			}
 		}
 		if len(doc.Branches) == 0 {
@@ -116,6 +152,10 @@ func c16GenRepo(r *vfRand, id int, prio int) c16RepoSpec {
 				}
 				st := pos + i
 				doc.Symbols = append(doc.Symbols, DocumentSection{Start: uint32(st), End: uint32(st + len(w))})
+				if noMeta {
+					pos = st + len(w)
+					continue
+				}
 				doc.SymbolsMetaData = append(doc.SymbolsMetaData, &zoekt.Symbol{Sym: w, Kind: r.Pick([]string{"function", "var", "class"}),
 					Parent: r.Pick([]string{"", "pkg", "Outer"}), ParentKind: r.Pick([]string{"", "package", "class"})})
 				pos = st + len(w)
@@ -196,11 +236,11 @@ func c16Syms(t *testing.T, d *indexData, doc uint32) string {
 	var xs []string
 	for i, s := range secs {
 		sym := d.symbols.data(d.fileEndSymbol[doc] + uint32(i))
-		meta := "nil"
+		meta := uint64(0) // no metadata stored for this section (symbolData.data returns nil)
 		if sym != nil {
-			meta = sym.Kind + "|" + sym.Parent + "|" + sym.ParentKind
+			meta = c16S("sym:" + sym.Kind + "|" + sym.Parent + "|" + sym.ParentKind)
 		}
-		xs = append(xs, cTuple(cN(uint64(s.Start)), cN(uint64(s.End)), cN(c16S("sym:"+meta))))
+		xs = append(xs, cTuple(cN(uint64(s.Start)), cN(uint64(s.End)), cN(meta)))
 	}
 	if len(xs) == 0 {
 		return "(@nil (N * N * N))"
@@ -268,15 +308,17 @@ func c16ViewCoq(t *testing.T, d *indexData) (string, int) {
 		if err != nil {
 			t.Fatal(err)
 		}
+		// bit i of the mask = branch i of the repository (all 64 bits; NOT addDocument's own walk)
 		var brs []string
 		mask := d.fileBranchMasks[doc]
-		id := uint32(1)
-		for mask != 0 {
-			if mask&1 != 0 {
-				brs = append(brs, d.branchNames[repoID][uint(id)])
+		for i := 0; i < 64; i++ {
+			if mask>>uint(i)&1 == 1 {
+				if i < len(d.repoMetaData[repoID].Branches) {
+					brs = append(brs, d.repoMetaData[repoID].Branches[i].Name)
+				} else {
+					brs = append(brs, "")
+				}
 			}
-			id <<= 1
-			mask >>= 1
 		}
 		cat, _ := d.getCategory(doc).encode()
 		dd := fmt.Sprintf("(Build_ddoc %s %s %s %s %s %s %s)", cN(c16S("name:"+string(d.fileName(doc)))), cN(c16S("content:"+string(content))), c16Ns(brs),
@@ -312,10 +354,14 @@ func c16Battery() map[string]query.Q {
 		"not-foo":      query.NewAnd(&query.Not{Child: sub("foo")}, sub("bar")),
 		"repo:r1":      query.NewAnd(&query.Repo{Regexp: regexp.MustCompile("r1")}, &query.Const{Value: true}),
 		"binary":       sub("NOT-INDEXED"),
+		"branch:=w40":  query.NewAnd(&query.Branch{Pattern: "w40", Exact: true}, &query.Const{Value: true}),
+		"branch:w5":    query.NewAnd(&query.Branch{Pattern: "w5"}, sub("a")),
 	}
 }
 
-func c16Results(t *testing.T, ds []*indexData) map[string][]string {
+// proj: a fragment's SymbolInfo whose Kind, Parent and ParentKind are all empty is rendered like a missing SymbolInfo
+// (only used to CLASSIFY a difference that the strict comparison found, see c16Compare)
+func c16Results(t *testing.T, ds []*indexData, proj bool) map[string][]string {
 	out := map[string][]string{}
 	ctx := context.Background()
 	for name, q := range c16Battery() {
@@ -331,7 +377,7 @@ func c16Results(t *testing.T, ds []*indexData) map[string][]string {
 					frs := []string{}
 					for _, fr := range m.LineFragments {
 						s := fmt.Sprintf("%d+%d@%d", fr.LineOffset, fr.MatchLength, fr.Offset)
-						if fr.SymbolInfo != nil {
+						if fr.SymbolInfo != nil && !(proj && fr.SymbolInfo.Kind == "" && fr.SymbolInfo.Parent == "" && fr.SymbolInfo.ParentKind == "") {
 							s += fmt.Sprintf("{%s,%s,%s,%s}", fr.SymbolInfo.Sym, fr.SymbolInfo.Kind, fr.SymbolInfo.Parent, fr.SymbolInfo.ParentKind)
 						}
 						frs = append(frs, s)
@@ -382,14 +428,24 @@ func c16Compare(t *testing.T, step string, ins, outs []*indexData, replay map[st
 			}
 		}
 	}
-	a, b := c16Results(t, ins), c16Results(t, outs)
+	a, b := c16Results(t, ins, false), c16Results(t, outs, false)
+	var pa, pb map[string][]string
 	for _, name := range vfSortedKeys(a) {
 		if strings.Join(a[name], "\n") != strings.Join(b[name], "\n") {
 			rp := map[string]any{"step": step, "query": name, "over_inputs": a[name], "over_outputs": b[name]}
 			for k, v := range replay {
 				rp[k] = v
 			}
-			vfOracleFail(step+":"+name, fmt.Sprintf("%s: query %s returns different results over outputs than over inputs", step, name), rp)
+			if pa == nil {
+				pa, pb = c16Results(t, ins, true), c16Results(t, outs, true)
+			}
+			key, what := step+":"+name, fmt.Sprintf("%s: query %s returns different results over outputs than over inputs", step, name)
+			if strings.Join(pa[name], "\n") == strings.Join(pb[name], "\n") {
+				// the ONLY difference: a symbol section stored without metadata (SymbolInfo nil over the input) comes back
+				// with empty metadata (SymbolInfo{Sym, "", "", ""}) — own key so that nothing else hides behind it
+				key, what = "nil-symbol-metadata-becomes-empty", fmt.Sprintf("%s: query %s: matches in symbol sections stored WITHOUT metadata carry an empty SymbolInfo over the outputs (none over the inputs); everything else equal", step, name)
+			}
+			vfOracleFail(key, what, rp)
 		}
 	}
 }
@@ -404,6 +460,94 @@ func c16Data(ls []*c16Loaded) []*indexData {
 
 // ---- steps
 
+func c16SafeMerge(dir string, files ...IndexFile) (tmp, dst string, err error, panicked any) {
+	defer func() {
+		if r := recover(); r != nil {
+			panicked = r
+		}
+	}()
+	tmp, dst, err = Merge(dir, files...)
+	return
+}
+
+func c16SafeExplode(dir string, f IndexFile) (names map[string]string, err error, panicked any) {
+	defer func() {
+		if r := recover(); r != nil {
+			panicked = r
+		}
+	}()
+	names, err = explode(dir, f)
+	return
+}
+
+// where the tombstoned repositories (with documents) sit in merge's processing order, and whether one has >= 2 documents
+func c16TombClasses(ins []*c16Loaded) []string {
+	ds := append([]*indexData(nil), c16Data(ins)...)
+	sort.SliceStable(ds, func(i, j int) bool { return ds[i].repoMetaData[0].GetPriority() > ds[j].repoMetaData[0].GetPriority() })
+	type rp struct {
+		tomb bool
+		docs int
+	}
+	var seq []rp
+	for _, d := range ds {
+		cnt := make([]int, len(d.repoMetaData))
+		for _, x := range d.repos {
+			cnt[x]++
+		}
+		for i, md := range d.repoMetaData {
+			if cnt[i] > 0 {
+				seq = append(seq, rp{md.Tombstone, cnt[i]})
+			}
+		}
+	}
+	set := map[string]bool{}
+	for i, x := range seq {
+		if !x.tomb {
+			continue
+		}
+		switch {
+		case i == 0:
+			set["tomb-first"] = true
+		case i == len(seq)-1:
+			set["tomb-last"] = true
+		default:
+			set["tomb-middle"] = true
+		}
+		if x.docs >= 2 {
+			set["tomb-multi-doc"] = true
+		}
+	}
+	return vfSortedKeys(set)
+}
+
+// a simple (v16) shard is tombstoned through a .meta file holding its ONE repository object (SetTombstone writes
+// the array form of compound shards, which a v16 shard does not load)
+func c16TombstoneSimple(t *testing.T, fn string) {
+	repos, _, err := ReadMetadataPath(fn)
+	if err != nil || len(repos) != 1 {
+		t.Fatalf("harness: metadata of %s: %v", fn, err)
+	}
+	repos[0].Tombstone = true
+	tmp, dst, err := JsonMarshalRepoMetaTemp(fn, repos[0])
+	if err != nil {
+		t.Fatal(err)
+	}
+	if err := os.Rename(tmp, dst); err != nil {
+		t.Fatal(err)
+	}
+}
+
+// index into a repo list by position class: 0 = first, 1 = middle, 2 = last
+func c16PosPick(r *vfRand, n int) int {
+	switch r.Intn(3) {
+	case 0:
+		return 0
+	case 1:
+		return n / 2
+	}
+	return n - 1
+}
+
 func c16Merge(t *testing.T, dir string, ins []*c16Loaded, step string, class []string, specs any) *c16Loaded {
 	var files []IndexFile
 	var inCoq []string
@@ -411,7 +555,12 @@ func c16Merge(t *testing.T, dir string, ins []*c16Loaded, step string, class []s
 		files = append(files, l.inf)
 		inCoq = append(inCoq, c16ShardCoq(t, l.d))
 	}
-	tmp, dst, err := Merge(dir, files...)
+	tmp, dst, err, pnc := c16SafeMerge(dir, files...)
+	if pnc != nil {
+		vfCase(cTuple("0%N", cList(inCoq), "true", "(@nil oshard)"), vfKey(step, inCoq), true, append(class, "merge-panic"), map[string]any{"panic": fmt.Sprint(pnc)})
+		vfOracleFail(step+":panic", "index.Merge panics on well-formed input shards: "+fmt.Sprint(pnc), map[string]any{"step": step, "specs": specs, "panic": fmt.Sprint(pnc)})
+		return nil
+	}
 	if err != nil {
 		vfCase(cTuple("0%N", cList(inCoq), "true", "(@nil oshard)"), vfKey(step, inCoq), true, append(class, "merge-error"), map[string]any{"err": err.Error()})
 		// the generated inputs are valid shards with live repositories: refusing to merge them loses them
@@ -438,7 +587,12 @@ func c16Merge(t *testing.T, dir string, ins []*c16Loaded, step string, class []s
 
 func c16Explode(t *testing.T, dir string, in *c16Loaded, class []string, specs any) []*c16Loaded {
 	inCoq := c16ShardCoq(t, in.d)
-	names, err := explode(dir, in.inf)
+	names, err, pnc := c16SafeExplode(dir, in.inf)
+	if pnc != nil {
+		vfCase(cTuple("1%N", cList([]string{inCoq}), "true", "(@nil oshard)"), vfKey("explode", inCoq), true, append(class, "explode-panic"), map[string]any{"panic": fmt.Sprint(pnc)})
+		vfOracleFail("explode:panic", "explode panics on a well-formed compound shard: "+fmt.Sprint(pnc), map[string]any{"step": "explode", "specs": specs, "panic": fmt.Sprint(pnc)})
+		return nil
+	}
 	if err != nil {
 		vfCase(cTuple("1%N", cList([]string{inCoq}), "true", "(@nil oshard)"), vfKey("explode", inCoq), true, append(class, "explode-error"), map[string]any{"err": err.Error()})
 		vfOracleFail("explode:error", "explode fails on a well-formed compound shard: "+err.Error(), map[string]any{"step": "explode", "specs": specs, "err": err.Error()})
@@ -484,7 +638,7 @@ func c16SpecSummary(specs []c16RepoSpec) []map[string]any {
 		for _, b := range s.repo.Branches {
 			brs = append(brs, b.Name)
 		}
-		out = append(out, map[string]any{"repo": s.repo.Name, "priority": s.repo.RawConfig["priority"], "branches": brs, "docs": docs})
+		out = append(out, map[string]any{"repo": s.repo.Name, "priority": s.repo.RawConfig["priority"], "branches": brs, "docs": docs, "symbols_without_metadata": s.noMeta})
 	}
 	return out
 }
@@ -518,6 +672,21 @@ func TestVerifC16(t *testing.T) {
 		}
 		sum := c16SpecSummary(specs)
 		class := []string{fmt.Sprintf("repos=%d", k)}
+		specClasses := func(specs []c16RepoSpec) []string {
+			var w, nm bool
+			for _, s := range specs {
+				w, nm = w || s.wide, nm || s.noMeta
+			}
+			var out []string
+			if w {
+				out = append(out, "branches>32")
+			}
+			if nm {
+				out = append(out, "symbols-without-metadata")
+			}
+			return out
+		}
+		class = append(class, specClasses(specs)...)
 		m1 := c16Merge(t, filepath.Join(dir, "m1"), ins, "merge", class, sum)
 		emitted++
 		if m1 == nil {
@@ -525,13 +694,21 @@ func TestVerifC16(t *testing.T) {
 		}
 		cur := m1
 		if r.Chance(70) {
-			// tombstone one or two repos of the compound, add fresh simple shards, merge again
+			// tombstone one or two repos of the compound (first / middle / last of its repo list, or any), add fresh
+			// simple shards (some of them tombstoned through their own .meta), merge again
+			var ids []uint32
+			for _, md := range m1.d.repoMetaData {
+				ids = append(ids, md.ID)
+			}
 			m1.close()
 			nt := 1 + r.Intn(2)
 			tomb := []string{}
 			for i := 0; i < nt && i < k; i++ {
-				id := 1 + r.Intn(k)
-				if err := SetTombstone(m1.path, uint32(id)); err != nil {
+				id := ids[c16PosPick(r, len(ids))]
+				if i > 0 {
+					id = ids[r.Intn(len(ids))]
+				}
+				if err := SetTombstone(m1.path, id); err != nil {
 					t.Fatal(err)
 				}
 				tomb = append(tomb, fmt.Sprint("r", id))
@@ -542,20 +719,27 @@ func TestVerifC16(t *testing.T) {
 			for i := 0; i < k2; i++ {
 				s := c16GenRepo(r, k+i+1, prios[k+i])
 				specs = append(specs, s)
-				ins2 = append(ins2, c16Load(t, c16WriteSimple(t, filepath.Join(dir, "in2"), s)))
+				fn := c16WriteSimple(t, filepath.Join(dir, "in2"), s)
+				if r.Chance(35) {
+					c16TombstoneSimple(t, fn)
+					tomb = append(tomb, s.repo.Name)
+				}
+				ins2 = append(ins2, c16Load(t, fn))
 			}
 			if r.Bool() && len(ins2) > 1 {
 				ins2[0], ins2[len(ins2)-1] = ins2[len(ins2)-1], ins2[0]
 			}
 			sum = c16SpecSummary(specs)
 			class2 := []string{fmt.Sprintf("repos=%d", k+k2), "compound-input", fmt.Sprintf("tombstones=%d", len(tomb))}
+			class2 = append(class2, specClasses(specs)...)
+			class2 = append(class2, c16TombClasses(ins2)...)
 			m2 := c16Merge(t, filepath.Join(dir, "m2"), ins2, "merge-with-tombstones", class2, map[string]any{"specs": sum, "tombstoned": tomb})
 			emitted++
 			if m2 != nil {
 				cur = m2
 				if r.Chance(40) && len(cur.d.repoMetaData) > 1 {
 					cur.close()
-					id := cur.d.repoMetaData[r.Intn(len(cur.d.repoMetaData))].ID
+					id := cur.d.repoMetaData[c16PosPick(r, len(cur.d.repoMetaData))].ID
 					if err := SetTombstone(cur.path, id); err != nil {
 						t.Fatal(err)
 					}
